@@ -68,14 +68,15 @@ pub fn dn_values() -> Vec<(String, DnSpec)> {
         ("O universal starting with U+0000 + CN utf8 ending in U+0000".into(), DnSpec(vec![(O, Universal, "\u{0}ab".into()), (Cn, Utf8, "cd\u{0}".into())])),
         ("CN ia5 ending in a line break".into(), one(Cn, Ia5, "ab\r\n")),
         ("O printable ending in a space + CN printable starting with a space".into(), DnSpec(vec![(O, Printable, "Org ".into()), (Cn, Printable, " cn".into())])),
+        ("custom oids with arcs 2^32, 2^63 and 2^64-1".into(), DnSpec(vec![(Custom(vec![1, 3, 4294967296, 1]), Utf8, "a".into()), (Custom(vec![2, 9223372036854775808, 5]), Utf8, "b".into()), (Custom(vec![2, 999, 18446744073709551615]), Printable, "c".into())])),
     ]
 }
 
 /// Value shapes for the attribute type x string kind x value sweeps: lengths 0..3, letters / digits / mixed, texts that
 /// read like another kind of name, and characters that text tools treat specially (NUL, blank, line break, dot, U+FEFF)
-/// at either edge. A text outside a string kind's alphabet is refused by that kind's constructor and skipped.
+/// at either edge, and text outside the everyday (combining mark, astral character, sharp s, final sigma, zero-width and bidi controls). A text outside a string kind's alphabet is refused by that kind's constructor and skipped.
 pub fn value_shapes() -> Vec<&'static str> {
-    vec!["", "D", "US", "de", "U1", "12", "USA", "a b", "x@y.z", "1.2.3.4", "example", "ab\u{0}", "\u{0}ab", "\u{0}", "ab ", " ab", "ab\n", "ab\r\n", "ab.", "\u{feff}ab", "ab\u{feff}"]
+    vec!["", "D", "US", "de", "U1", "12", "USA", "a b", "x@y.z", "1.2.3.4", "example", "ab\u{0}", "\u{0}ab", "\u{0}", "ab ", " ab", "ab\n", "ab\r\n", "ab.", "\u{feff}ab", "ab\u{feff}", "e\u{301}", "\u{1f980}x", "Stra\u{df}e", "\u{3c3}\u{3c2}", "a\u{200b}b", "\u{202e}abc"]
 }
 
 pub fn san_values() -> Vec<(String, Vec<SanSpec>)> {
